@@ -12,6 +12,7 @@ import (
 	"net/http/httptest"
 	"os"
 	"regexp"
+	"runtime"
 	"runtime/debug"
 	"sort"
 	"strconv"
@@ -107,6 +108,14 @@ func RunRead(t *testing.T, s Scenario) (ri *simcheck.RunInfo) {
 	ri = &simcheck.RunInfo{Faults: map[string]int{}, Probes: map[string]int{}}
 	st := &runState{s: s}
 	var harnessErr string
+	// a run starts with empty sync.Pools (two collections empty a pool and its victim cache): what one run leaves in a
+	// pooled object - an encoder stream returned twice, say - must not be found by the next run of this worker process,
+	// or the failure it causes there cannot be replayed from that run's scenario
+	// (done where response bodies are judged; it costs two thirds of the throughput)
+	if os.Getenv("VERIF_PROPERTY") == "C15" {
+		runtime.GC()
+		runtime.GC()
+	}
 	func() {
 		defer func() {
 			if r := recover(); r != nil {
@@ -305,7 +314,14 @@ func (st *runState) client(sys *System, ci int, reqs []Req) {
 			if ns, ok := reqTime(r.End); ok {
 				endMs = ns / 1000000
 			}
-			body = bytes.NewReader([]byte(fmt.Sprintf(`{"start":%d,"end":%d,`, startMs, endMs) + `"label_selector":"{service_name=\"x\"}","labelSelector":"{service_name=\"x\"}","profile_typeID":"process_cpu:cpu:nanoseconds:cpu:nanoseconds","profileTypeID":"process_cpu:cpu:nanoseconds:cpu:nanoseconds","name":"a","matchers":["{a=\"b\"}"],"label_names":["a"],"group_by":["a"],"step":15}`))
+			// the request's own selector and profile type (two requests with one selector text and different types exist)
+			sel, _ := json.Marshal(`{service_name="x"}`)
+			if strings.HasPrefix(r.Query, "{") && !r.Mutated {
+				sel, _ = json.Marshal(r.Query)
+			}
+			tid := ProfTypes[r.ProfType%len(ProfTypes)]
+			body = bytes.NewReader([]byte(fmt.Sprintf(`{"start":%d,"end":%d,"label_selector":%s,"labelSelector":%s,"profile_typeID":%q,"profileTypeID":%q,`, startMs, endMs, sel, sel, tid, tid) +
+				`"name":"a","matchers":["{a=\"b\"}"],"label_names":["a"],"group_by":["a"],"step":15}`))
 		} else {
 			body = bytes.NewReader(nil)
 		}
@@ -518,7 +534,7 @@ var rePromSelector = regexp.MustCompile(`^[a-zA-Z_:][a-zA-Z0-9_:]*(\{[^{}]*\})?$
 func (st *runState) checkDocument(r *reqRec, add func(p, oracle, sig, detail string)) {
 	rq := r.Req
 	if r.Status >= 500 && !r.Cancelled && rq.Result.ErrAtRow == 0 && rq.Result.StallAtRow == 0 && !rq.Result.QueryErr && !rq.NoDB && st.s.ConnErrs == 0 &&
-		rq.Result.NullAtRow == 0 && (rq.Result.TraceShape == 0 || rq.Result.TraceShape == 5) && !rq.Mutated && r.Panicked == "" {
+		rq.Result.NullAtRow == 0 && (rq.Result.TraceShape == 0 || rq.Result.TraceShape == 5) && !rq.Mutated && !rq.Faulty && r.Panicked == "" {
 		// the database answered every statement of a well-formed request with rows, nothing failed, and the client is told
 		// "server error": the rows are in no document at all
 		served, aborted := 0, false
@@ -537,6 +553,14 @@ func (st *runState) checkDocument(r *reqRec, add func(p, oracle, sig, detail str
 				fmt.Sprintf("req%d %s: %d rows served without any fault, status %d, body %q; result script %+v", r.ID, r.Path, served, r.Status, body, brief(rq.Result)))
 		}
 		return
+	}
+	if rq.Faulty && rq.Result.NullAtRow > 0 {
+		switch rq.Kind {
+		case "labels", "label_values", "prom_labels", "prom_label_values", "tags", "tag_values", "tags_v2", "tag_values_v2", "series", "prom_series":
+			// (a NULL among the values of a list is a result-set shape the list endpoints are judged on)
+		default:
+			return // a row that cannot be scanned in the middle of a streamed result is a database fault
+		}
 	}
 	if r.Status != 200 || r.Cancelled || rq.Result.ErrAtRow > 0 || rq.Result.StallAtRow > 0 || rq.Result.QueryErr || rq.NoDB || st.s.ConnErrs > 0 {
 		return
